@@ -92,7 +92,7 @@ func showSegs(segs []Seg) string {
 
 // sliceSegs returns the content of a byte-slice value as segments.
 func (it *Interp) sliceSegs(v Value) ([]Seg, bool) {
-	switch x := v.(type) {
+	switch x := it.rd(v).(type) {
 	case Nil:
 		return nil, true
 	case AbsSlice:
@@ -327,6 +327,26 @@ func (fr *Frame) builtin(x *ssa.Call, name string, args []Value) Value {
 			}
 			it.abortf("copy into a slice with a symbolic offset in %s", fr.fn)
 		}
+		if bd, isBuf := args[0].(BufRef); isBuf {
+			if _, conc := it.bufConc(bd); !conc {
+				// copy into a buffer of symbolic length: the source must provably fit, and replaces a prefix
+				src, okS := it.sliceSegs(args[1])
+				if !okS {
+					it.abortf("copy from %s into a buffer of symbolic length in %s", show(args[1]), fr.fn)
+				}
+				cur := bd.C.Val.(AbsSlice)
+				sl := it.ApplyTerm(AbsSlice{Segs: src}.Length())
+				if lo, _ := it.ApplyTerm(cur.Length()).Sub(sl).Bounds(); lo.Sign() < 0 {
+					it.abortf("copy of %s bytes into a buffer of %s bytes in %s", sl, cur.Length(), fr.fn)
+				}
+				_, right, okR := it.splitSegs(cur.Segs, sl)
+				if !okR {
+					it.abortf("copy into the middle of a buffer segment in %s", fr.fn)
+				}
+				it.setCell(bd.C, AbsSlice{Segs: normSegs(append(append([]Seg{}, src...), right...))})
+				return termValue(sl)
+			}
+		}
 		dst, ok1 := it.asSlice(args[0])
 		if !ok1 {
 			it.abortf("copy into %s in %s", show(args[0]), fr.fn)
@@ -381,6 +401,23 @@ func (fr *Frame) builtin(x *ssa.Call, name string, args []Value) Value {
 		return KInt{big.NewInt(int64(n))}
 	case "append":
 		return fr.appendB(x, args)
+	case "clear":
+		if sv, ok := it.asSlice(args[0]); ok {
+			if l, isC := it.ApplyTerm(sv.Len).IsConst(); isC {
+				if sv.Arr.Rep != nil {
+					it.materialise(sv.Arr)
+				}
+				for i := 0; i < int(l.Int64()); i++ {
+					c := sv.Arr.Kids[sv.Lo+i]
+					if len(c.Kids) > 0 {
+						it.abortf("clear of a slice of aggregates in %s", fr.fn)
+					}
+					it.storeValue(c, KInt{big.NewInt(0)})
+				}
+				return nil
+			}
+		}
+		it.abortf("clear of %s in %s", show(args[0]), fr.fn)
 	case "min", "max":
 		acc, ok := asTerm(args[0])
 		for _, a := range args[1:] {
@@ -420,6 +457,7 @@ func (fr *Frame) appendValues(t types.Type, a0, a1 Value) Value {
 		isByte = true
 	}
 	// abstract strings
+	args[0], args[1] = it.rd(args[0]), it.rd(args[1])
 	_, aAbs := args[0].(AbsSlice)
 	_, bAbs := args[1].(AbsSlice)
 	if sv, ok := args[0].(SliceV); ok {
@@ -515,11 +553,41 @@ func (fr *Frame) invoke(x *ssa.Call, recv Value, method string, args []Value) Va
 			return Tuple{nv, Nil{}}
 		case "Sum":
 			pre, ok := it.sliceSegs(args[0])
-			if !ok || len(pre) != 0 {
-				it.abortf("hash.Sum with a non-empty prefix in %s", fr.fn)
+			if !ok {
+				it.abortf("hash.Sum with an unknown prefix in %s", fr.fn)
 			}
 			h.Sums++
 			d := HashDigest(h.Alg, h.Pending)
+			if len(pre) != 0 || func() bool { sv, isS := args[0].(SliceV); return isS && sv.Cap >= 32 }() {
+				// Sum(b) appends the digest to b: in place when the capacity suffices
+				sv, isS := it.rd(args[0]).(SliceV)
+				ln, isC := TInt(0), true
+				if isS {
+					var k *big.Int
+					k, isC = it.ApplyTerm(sv.Len).IsConst()
+					if isC {
+						ln = TConst(k)
+					}
+				}
+				if !isS || !isC {
+					it.abortf("hash.Sum with a prefix of symbolic length in %s", fr.fn)
+				}
+				n := int(func() int64 { k, _ := ln.IsConst(); return k.Int64() }())
+				if sv.Cap >= n+32 && sv.Lo+n+32 <= len(sv.Arr.Kids) {
+					for i := 0; i < 32; i++ {
+						it.storeValue(sv.Arr.Kids[sv.Lo+n+i], termValue(ByteOf(d, 31-i)))
+					}
+					return SliceV{Arr: sv.Arr, Lo: sv.Lo, Len: TInt(int64(n + 32)), Cap: sv.Cap}
+				}
+				o := it.NewArrayObject(types.Typ[types.Uint8], n+32, "digest", false)
+				for i := 0; i < n; i++ {
+					o.Root.Kids[i].Val = it.loadValue(sv.Arr.Kids[sv.Lo+i])
+				}
+				for i := 0; i < 32; i++ {
+					o.Root.Kids[n+i].Val = termValue(ByteOf(d, 31-i))
+				}
+				return SliceV{Arr: o.Root, Lo: 0, Len: TInt(int64(n + 32)), Cap: n + 32}
+			}
 			o := it.NewArrayObject(types.Typ[types.Uint8], 32, "digest", false)
 			for i := range o.Root.Kids {
 				o.Root.Kids[i].Val = termValue(ByteOf(d, 31-i))
@@ -791,6 +859,43 @@ func (it *Interp) stdlib(fr *Frame, x *ssa.Call, fn *ssa.Function, args []Value)
 		h := &HashObj{ID: it.nobj, Alg: 5}
 		it.Hashes = append(it.Hashes, h)
 		return Iface{Dyn: HashRef{h}}
+	case "crypto.Hash.Available":
+		// the registry linkage itself (the hash package is in the import closure of the library) is C17's rule
+		if k, ok := args[0].(KInt); ok && k.V.Int64() == 5 {
+			return KBool(true)
+		}
+	case "crypto/subtle.XORBytes":
+		d, ok0 := it.asSlice(args[0])
+		a, ok1 := it.asSlice(args[1])
+		b, ok2 := it.asSlice(args[2])
+		if ok0 && ok1 && ok2 {
+			dl, c0 := it.ApplyTerm(d.Len).IsConst()
+			al, c1 := it.ApplyTerm(a.Len).IsConst()
+			bl, c2 := it.ApplyTerm(b.Len).IsConst()
+			if c0 && c1 && c2 {
+				n := int(al.Int64())
+				if int(bl.Int64()) < n {
+					n = int(bl.Int64())
+				}
+				if int(dl.Int64()) < n {
+					panic(&goPanic{val: KStr("subtle.XORBytes: dst too short"), fn: fr.fn, pos: x.Pos()})
+				}
+				vals := make([]Value, n)
+				for i := 0; i < n; i++ {
+					ta, oka := asTerm(it.loadValue(a.Arr.Kids[a.Lo+i]))
+					tb, okb := asTerm(it.loadValue(b.Arr.Kids[b.Lo+i]))
+					if !oka || !okb {
+						vals[i] = Top{Why: "xor of unknown bytes"}
+						continue
+					}
+					vals[i] = termValue(wXor(ta, tb, 8))
+				}
+				for i := 0; i < n; i++ {
+					it.storeValue(d.Arr.Kids[d.Lo+i], vals[i])
+				}
+				return KInt{big.NewInt(int64(n))}
+			}
+		}
 	case "crypto.Hash.Size":
 		if k, ok := args[0].(KInt); ok {
 			sizes := map[int64]int64{3: 20, 4: 28, 5: 32, 6: 48, 7: 64}
@@ -798,7 +903,22 @@ func (it *Interp) stdlib(fr *Frame, x *ssa.Call, fn *ssa.Function, args []Value)
 				return KInt{big.NewInt(s)}
 			}
 		}
-	case "io.ReadFull":
+	case "io.ReadFull", "io.ReadAtLeast":
+		if key == "io.ReadAtLeast" {
+			// ReadAtLeast(r, buf, len(buf)) is ReadFull(r, buf)
+			mn, okM := it.constInt(args[2])
+			ln := it.lenTerm(args[1])
+			lk, isC := TInt(-1), false
+			if ln != nil {
+				var k *big.Int
+				if k, isC = ln.IsConst(); isC {
+					lk = TConst(k)
+				}
+			}
+			if !okM || !isC || !lk.Equal(TInt(int64(mn))) {
+				break
+			}
+		}
 		src := args[0]
 		if ifc, ok := src.(Iface); ok {
 			src = ifc.Dyn
